@@ -6,12 +6,52 @@ BASELINE_OFF = ("cd /repo && GOFLAGS=-mod=mod GOPROXY=off GOSUMDB=off GOTOOLCHAI
                 "go test -json -vet=off -count=1 -timeout 25m ./...")
 
 # id -> (technique, level text, level note, design ref)
+E = "exploration"
 CLAIMED = {
+ "C01": ("property-based testing + exhaustive small-scope generation: all 7 decoding entry points on random/structured/mutated bytes and every length shape up to a body bound; oracles no-panic, watchdog, allocation bound, view geometry, entry-point agreement (release and debug builds); native fuzzing in the thorough tier",
+         "Generated-input search with explicit safety oracles; the length-structure space up to a stated body bound is enumerated completely, everything beyond it is sampled.",
+         "Inputs above 65555 bytes are not generated; allocation bound 4096+96*len is the harness's reading of 'small multiple'; absence is not established beyond the enumerated bound.",
+         "DESIGN.md section 4, C01"),
+ "C02": ("differential testing of stun.Decode against an independently written RFC 5389 parser (harness/ref) on generated inputs and the exhaustive length-shape space; list-model oracle for Get/Contains/ForEach",
+         "Accept/reject verdict and decoded content are compared with a second implementation written from the RFC for every length structure up to a body bound (exhaustive) and for random/mutated inputs (sampled).",
+         "Trusts harness/ref.Parse as a faithful RFC 5389 framing parser (validated on the RFC 5769 test vectors).",
+         "DESIGN.md section 4, C02"),
+ "C03": ("model-based (stateful) property testing with rapid: random traces of building operations, invariant checked after every step against a list model, the reference parser and the canonical reference encoder",
+         "Histories of building operations are generated and shrunk as one value; after every step wire == struct == model and decode/encode identities hold.",
+         "Sampled histories (bounded length 1..40); typed-setter value bytes are taken from the wire here and judged by C06; type 0x8020 is not passed to Add (decode-side alias).",
+         "DESIGN.md section 4, C03"),
+ "C04": ("property-based differential testing of MessageIntegrity.Check/AddTo against an RFC 2104 HMAC-SHA1 written by definition; exhaustive single-bit tamper sweep per signed message (release and debug builds)",
+         "The iff of RFC 5389 15.4 is checked on generated messages with near-miss MACs and arbitrary trailing attributes; every bit position of each signed message is flipped and judged by the reference verdict.",
+         "Trusts harness/ref.HMACSHA1 (cross-checked against crypto/hmac); collision bounds of HMAC-SHA1 are inherited.",
+         "DESIGN.md section 4, C04"),
+ "C05": ("property-based differential testing of Fingerprint.Check/AddTo against a bitwise CRC-32; exhaustive single-bit flips and random <=32-bit bursts per fingerprinted message (release and debug builds)",
+         "The iff of RFC 5389 15.5 is checked on generated messages; every bit of each fingerprinted message and random bursts (in CRC bit order) must be detected unless the corruption creates/removes FINGERPRINT attributes.",
+         "Trusts harness/ref.CRC32 (bitwise, cross-checked against hash/crc32). Bursts are windows of <=32 consecutive bits in the CRC's own bit order (where the guarantee is mathematical).",
+         "DESIGN.md section 4, C05"),
+ "C06": ("property-based round-trip plus two-way differential testing against independent RFC 5389 section 15 encoders/decoders; exhaustive sweeps of error codes, list lengths, limit-adjacent text lengths and (thorough) all ports",
+         "Each typed value is checked in three directions: library round-trip, library bytes == RFC encoder (and readable by an RFC decoder), RFC-encoded bytes readable by the library.",
+         "Attribute limits are the library's documented constants (D5); reference codecs in harness/ref validated on RFC 5769 vectors.",
+         "DESIGN.md section 4, C06"),
+ "C07": ("metamorphic (twin) testing: each getter/checker runs on two generated messages that hold the same value but differ in padding, neighbours, capacity and poison; exhaustive grid over getter x value length 0..40 x position x capacity, plus random twins (release and debug builds)",
+         "Locality and purity are decided by a metamorphic relation (equal outcome on twins) plus before/after snapshots and no-panic with zero spare capacity; value lengths 0..40 are enumerated completely.",
+         "Spare capacity may be used as scratch by the integrity check (D7); only visible bytes are compared.",
+         "DESIGN.md section 4, C07"),
+ "C08": ("stateful property testing with a fresh-twin differential: random histories of decode/build uses of one Message with poisoned spare capacity and caller inputs overwritten after every call",
+         "Every use of a reused Message is compared with the same use on a fresh Message; copy semantics are checked by scribbling over all caller-side inputs.",
+         "Message.Decode() in place is excluded (no copy by design); sampled histories of 2..8 uses.",
+         "DESIGN.md section 4, C08"),
+ "C09": ("property-based testing of every setter on both sides of each limit with by-construction expected error class, before/after snapshots and spy-wrapped Build lists; exhaustive sweeps of limit-adjacent lengths, IP lengths 0..20, codes 0..999 (release and debug builds)",
+         "Expected outcome is known by construction from the generated value; atomicity is a snapshot comparison; Build's stop-at-first-error is checked with recording setters.",
+         "Limits are the library's documented constants (D5); codes 300..699 without a default reason may be accepted or refused.",
+         "DESIGN.md section 4, C09"),
  "C19": ("exhaustive generated-input differential against a bit-by-bit RFC 5389 figure-3 reference (complete domain)",
-         "Every (method,class) pair and every 16-bit wire value is generated and compared with an independent bit-by-bit reference; "
-         "the domain is finite and enumerated completely, so for this property exploration is exhaustive.",
+         "Every (method,class) pair and every 16-bit wire value is generated and compared with an independent bit-by-bit reference; the domain is finite and enumerated completely.",
          "Trusts the harness's transcription of RFC 5389 figure 3 (ref.TypeValue/TypeRead, self-checked on known type values).",
          "DESIGN.md section 4, C19"),
+ "C20": ("property-based testing with testing.AllocsPerRun == 0 as oracle over generated well-formed messages, warm buffers, dedicated non-race process",
+         "Allocation counts are measured per operation on generated messages of every supported attribute type and size class.",
+         "'Warm' means previously used for a strictly larger message (D6); UnknownAttributes with > 20 types is a documented allocation and not generated; operations must succeed.",
+         "DESIGN.md section 4, C20"),
 }
 
 TITLES = {}
